@@ -63,7 +63,7 @@ def units(tier, seed):
             continue
         if tier == "quick" and s.get("order", 4) > 16:
             continue
-        out.append({"unit": f"producer:{modems.cfg(s)}", "kind": "producer", "spec": s, "cost": 1 + s.get("order", 4) / 16})
+        out.append({"unit": f"producer:{modems.cfg(s)}", "kind": "producer", "spec": s, "cost": 1 + s.get("order", 4) / 16, "group": f"{s['scheme']}:{s.get('order', 0)}"})
     for name in ("bp", "bp_taylor", "minsum", "minsum_normalized", "wagner", "sc", "sc_minsum", "polar_bp", "rm_soft"):
         out.append({"unit": f"decoder:{name}", "kind": "decoder", "decoder": name, "cost": 3})
     return out
